@@ -90,3 +90,10 @@ check(
     "fault injection at library seams + differential vs. fault-free run (Hypothesis-drawn plans; exhaustive j enumeration in thorough)",
     "DESIGN.md §3 C10",
 )
+check(
+    "C11", "exploration",
+    "Metamorphic generated search: the same generated project and codemod selection is run (a) with w=1 and with w in {2,3,8} under Hypothesis-drawn per-file delay schedules injected at the libcst.parse_module seam and a permuted file creation order: normalised report and tree must be identical (completion order is observed to differ from input order); (b) in fresh interpreters under different PYTHONHASHSEED values, including cross-collection wildcard selections and the whole default set whose order comes from the registry; (c) with and without sibling files: bytes and changeset of a file must not depend on its siblings; (d) under an in-flight monitor at the same seam: with every parse sleeping 30 ms and 8-14 files the number of files simultaneously in flight must not exceed --max-workers.",
+    "Trusted: the harness owns per-file delays, not the GIL (interleavings inside one file's transformation are not enumerated); normalisation removes only elapsed, commandLine and the absolute directory.",
+    "Hypothesis property-based metamorphic testing with schedule injection and an in-flight monitor at a library seam",
+    "DESIGN.md §3 C11",
+)
